@@ -30,6 +30,19 @@ Theorem C17_gen_parse_level : forall g s tr,
 Proof. exact GenLevelP.gen_parse_level. Qed.
 Print Assumptions C17_gen_parse_level.
 
+(* UnmarshalText (and through it UnmarshalJSON): ParseLevel of the text - lower-casing included - and nothing
+   else; the receiver is overwritten iff the name is known, otherwise it keeps its value and the error is
+   returned.  With C17_roundtrip and C17_json_roundtrip: what MarshalText writes for a registered level reads back as that
+   level, whatever the case of the registered title. *)
+Theorem C17_gen_unmarshal_text : forall g level s tr,
+  LevelNames.unmarshal_text (r_s2l g) level s tr =
+  match parse_level g s with
+  | Some l => (None, l, tr)
+  | None => (Some tt, level, tr ++ [EvWarnUnknown s])
+  end.
+Proof. exact GenLevelP.gen_unmarshal_text. Qed.
+Print Assumptions C17_gen_unmarshal_text.
+
 (* RegisterLevel as it is in /repo now (translated on every run, Gen/Registry.v; the options arrive as
    the regPack fields after every opt ran; a Go map write overwrites an existing key, a write into a
    missing row of shortTagMap panics) is the model's [register]: the outcome (ok / value in use / title
